@@ -247,24 +247,25 @@ func (a *allocInfo) analyseSite(f *ssa.Function, s allocSite) siteOutcome {
 		if iff == nil {
 			return false
 		}
-		cf := edgeFact(edge{from, si})
-		if cf.X == nil {
-			return false
-		}
-		x, y := cf.X, cf.Y
-		if isNilConst(x) || isZeroConst(x) {
-			x, y = y, x
-		}
-		// err != nil on this edge and a failed allocator allocates nothing
-		if notAllocOnErr && isErr(x) && isNilConst(y) {
-			if (cf.Op == token.NEQ && cf.Want) || (cf.Op == token.EQL && !cf.Want) {
-				return true
+		for _, cf := range expandFact(edgeFact(edge{from, si}), 0) {
+			if cf.X == nil {
+				continue
 			}
-		}
-		// rev == 0 on this edge: nothing was allocated (idiom: revision 0 means "none")
-		if isV(x) && isZeroConst(y) {
-			if (cf.Op == token.EQL && cf.Want) || (cf.Op == token.NEQ && !cf.Want) {
-				return true
+			x, y := cf.X, cf.Y
+			if isNilConst(x) || isZeroConst(x) {
+				x, y = y, x
+			}
+			// err != nil on this edge and a failed allocator allocates nothing
+			if notAllocOnErr && isErr(x) && isNilConst(y) {
+				if (cf.Op == token.NEQ && cf.Want) || (cf.Op == token.EQL && !cf.Want) {
+					return true
+				}
+			}
+			// rev == 0 on this edge: nothing was allocated (idiom: revision 0 means "none")
+			if isV(x) && isZeroConst(y) {
+				if (cf.Op == token.EQL && cf.Want) || (cf.Op == token.NEQ && !cf.Want) {
+					return true
+				}
 			}
 		}
 		return false
